@@ -180,6 +180,38 @@ def main():
   mf = multiplier_factory.MultiplierFactory()
   af = accumulator_factory.AccumulatorFactory()
 
+  # documented memory-entry functions, written independently of qenergy.memory_read_energy / memory_write_energy:
+  #   placement "dram": a DRAM access of all bits (+ an SRAM access of ceil(bits * sram_mul_factor) words when rd_wr_on_io);
+  #   placement "sram": one SRAM access; placement "fixed" (hard-wired weights): no cost.  Model inputs / outputs are
+  #   on "dram" when rd_wr_on_io else on "sram".
+  def ref_sram(total_bits, mss):
+    return float(np.ceil(total_bits * cfg.sram_mul_factor) * max(cfg.sram_rd(np.log2(max(total_bits, mss))), 0))
+
+  def ref_mem(elems, bits, mode, mss, rw, at_io):
+    if at_io:
+      mode = "dram" if rw else "sram"
+    total = elems * bits
+    if mode == "dram":
+      return float(max(cfg.dram_rd(total), 0)) + (ref_sram(total, mss) if rw else 0.0)
+    if mode == "sram":
+      return ref_sram(total, mss)
+    return 0.0
+
+  def check_mem_entries(tag, lname, en, item_get, ishapes, is_in, is_out, wm, am, mss, rw, weighted):
+    want_in = sum(ref_mem(int(np.prod(sh[1:])), q_.bits, am, mss, rw, is_in) for sh, q_ in zip(ishapes, item_get("input_quantizer_list")))
+    osh = item_get("output_shapes")
+    want_out = ref_mem(int(np.prod(osh[1:])), item_get("output_quantizer").bits, am, mss, rw, is_out)
+    want_par = 0.0
+    if weighted:
+      want_par += ref_mem(int(np.prod(item_get("w_shapes"))), item_get("weight_quantizer").bits, wm, mss, rw, False)
+      if item_get("bias_quantizer"):
+        want_par += ref_mem(int(np.prod(item_get("b_shapes"))), item_get("bias_quantizer").bits, wm, mss, rw, False)
+    for key, want in (("inputs", want_in), ("outputs", want_out), ("parameters", want_par)):
+      w2 = float("{0:.2f}".format(want))
+      if abs(w2 - en[key]) > 1e-6 * max(1.0, abs(w2)) + 0.011:
+        rep.violation(f"{tag}-mem-{key}-{lname}", f"{lname}: energy entry '{key}' = {en[key]} but the documented function of (placement weights={wm}, activations={am}, "
+                      f"min_sram_size={mss}, rd_wr_on_io={rw}, input layer={is_in}, output layer={is_out}) gives {w2}", {"options": [wm, am, mss, rw]})
+
   def mk_layer(cls_name, name, input_shape, weights):
     cls = type(cls_name, (object,), {})
     o = cls()
@@ -228,6 +260,8 @@ def main():
       if min(vals) < 0:
         rep.violation(f"negative-energy-{mi}", f"negative energy entry {en}", {"layer": lay.name})
       entries.append((res[lay.name]["class_name"], vals))
+      check_mem_entries(f"syn{mi}", lay.name, en, lambda k, it=dmap[lay]: it[k], [lay.input_shape], lay is layers[0], lay is layers[-1], wm, am, mss, rw,
+                        res[lay.name]["class_name"] in ("QDense", "QConv2D", "Dense", "QDepthwiseConv2D"))
       # documented entry functions, recomputed independently in float64
       item = dmap[lay]
       if res[lay.name]["class_name"] in ("QDense", "QConv2D", "Dense", "QDepthwiseConv2D"):
@@ -283,7 +317,8 @@ def main():
       qt = QTools(m, process="horowitz", source_quantizers=[get_quantizer("quantized_bits(8,2,1)")], is_inference=False, weights_path=None,
                   keras_quantizer="fp32", keras_accumulator="fp32", for_reference=False)
       wm, am = str(rng.choice(["dram", "sram", "fixed"])), str(rng.choice(["dram", "sram"]))
-      res = qt.pe(weights_on_memory=wm, activations_on_memory=am, min_sram_size=int(rng.choice([0, 1000000])), rd_wr_on_io=bool(rng.integers(0, 2)))
+      mss_, rw_ = int(rng.choice([0, 1000000])), bool(rng.integers(0, 2))
+      res = qt.pe(weights_on_memory=wm, activations_on_memory=am, min_sram_size=mss_, rd_wr_on_io=rw_)
     except Exception as e:  # pylint: disable=broad-except
       rep.violation(f"real-pipeline-raises-{mi}", f"QTools(model).pe() raised {type(e).__name__}: {str(e)[:200]}", {})
       continue
@@ -319,6 +354,10 @@ def main():
       en = res[l.name]["energy"]
       if min(en["inputs"], en["outputs"], en["parameters"], en["op_cost"]) < 0:
         rep.violation(f"real-negative-energy-{mi}-{l.name}", f"{l.name}: negative energy entry {en}", {})
+      getv = (lambda k, it=e: it.get(k)) if isinstance(e, dict) else (lambda k, it=e: getattr(it, k, None))
+      ish = l.input_shape if isinstance(l.input_shape, list) else [l.input_shape]
+      check_mem_entries(f"real{mi}", l.name, en, getv, ish, l in qt._layer_map["input_layers"], l in qt._layer_map["output_layers"], wm, am, mss_, rw_,  # pylint: disable=protected-access
+                        cn in ("QDense", "QConv1D", "QConv2D", "QDepthwiseConv2D"))
       ssum += en["inputs"] + en["outputs"] + en["parameters"] + en["op_cost"]
     if abs(res["total_cost"] - ssum) > 1 + len(m.layers) / 50.0:
       rep.violation(f"real-total-{mi}", f"total_cost {res['total_cost']} but the layer entries sum to {ssum}", {})
